@@ -528,7 +528,7 @@ def oracle_c09(w):
     fires = {}
     dead = set()
     for (i, k, t, clk) in evs:
-        iv = specs[t]['interval']
+        iv = core_dsl.timer_interval(specs[t])
         if k == 'new':
             expiry[t] = clk + iv
         elif k == 'reset':
@@ -549,8 +549,8 @@ def oracle_c09(w):
     for t, fs in fires.items():
         if specs[t]['persist']:
             gaps = [b - a for a, b in zip(fs, fs[1:])]
-            if any(g < specs[t]['interval'] for g in gaps):
-                out.append(('spacing', f'persistent timer {t} (interval {specs[t]["interval"]}) fired at {fs}'))
+            if any(g < core_dsl.timer_interval(specs[t]) for g in gaps):
+                out.append(('spacing', f'persistent timer {t} (interval {core_dsl.timer_interval(specs[t])}) fired at {fs}'))
     for i, e in enumerate(E):
         if e[0] == 'W':
             b = w.side['wbound'].get(i)
